@@ -15,10 +15,14 @@ fn lcg(s: &mut u64) -> f64 {
 }
 
 fn sample_bits<const D: usize>(g: &SampleGenerator<D>, pt: &[f64], ne: usize, meta: bool) -> Vec<u64> {
+    sample_bits_tol(g, pt, ne, meta, Some(1e-6))
+}
+
+fn sample_bits_tol<const D: usize>(g: &SampleGenerator<D>, pt: &[f64], ne: usize, meta: bool, tol: Option<f64>) -> Vec<u64> {
     let ed: Vec<(Option<f64>, Vector<f64, D>)> = (0..ne)
         .map(|i| (if i % 2 == 0 { Some(0.5) } else { None }, Vector::from_array([0.25 * (i as f64 + 1.0); D])))
         .collect();
-    let st = TropicalSamplingSettings { matrix_stability_test: Some(1e-6), print_debug_info: false, return_metadata: meta, ..Default::default() };
+    let st = TropicalSamplingSettings { matrix_stability_test: tol, print_debug_info: false, return_metadata: meta, ..Default::default() };
     match g.generate_sample_from_x_space_point(pt, ed, &st) {
         Ok(s) => {
             let mut v = vec![s.u.to_bits(), s.v.to_bits(), s.jacobian.to_bits(), s.u_trop.to_bits(), s.v_trop.to_bits()];
@@ -55,8 +59,172 @@ fn sunrise() -> (Graph, Vec<Vec<isize>>, usize) {
     )
 }
 
+/// Cases >= 100: callers use DIFFERENT stability tolerances at the same time, on the
+/// same matrix (same sampler, same point) and on another sampler's matrix.  The
+/// verdict of the stability test (Ok / Unstable) for one (point, tolerance) must
+/// not depend on what other callers are asking at that moment: every result is
+/// compared with the sequential reference for the same arguments.
+fn tolerance_case(case: u64) {
+    let mut rs = 0x51ab1e7e57u64 ^ case.wrapping_mul(0xabcdef12345);
+    let (g, sig, ne_m) = sunrise();
+    let m = Arc::new(g.build_sampler::<3>(sig).expect("seed graph accepted"));
+    let (g, sig, ne_n) = bubble(0.9);
+    let n = Arc::new(g.build_sampler::<3>(sig).expect("seed graph accepted"));
+    let is_err = |v: &Vec<u64>| v.len() == 1;
+    // a point of M refused under the tiniest tolerance, a point of N accepted under the strictest one that works
+    let cand_m: Vec<Vec<f64>> = (0..3).map(|_| (0..m.get_dimension()).map(|_| lcg(&mut rs)).collect()).collect();
+    let cand_n: Vec<Vec<f64>> = (0..3).map(|_| (0..n.get_dimension()).map(|_| lcg(&mut rs)).collect()).collect();
+    let tiny = 5e-324;
+    let pm = cand_m.iter().find(|p| is_err(&sample_bits_tol(&*m, p, ne_m, false, Some(tiny)))).unwrap_or(&cand_m[0]).clone();
+    let mut strict = 0.0f64;
+    let mut pn = cand_n[0].clone();
+    'outer: for t in [0.0, 1e-17, 1.2e-16, 2.3e-16, 1e-15] {
+        for p in &cand_n {
+            if !is_err(&sample_bits_tol(&*n, p, ne_n, false, Some(t))) {
+                strict = t;
+                pn = p.clone();
+                break 'outer;
+            }
+        }
+    }
+    // (which sampler, tolerance); the sequential reference is computed in this order
+    let combos: Vec<(usize, Option<f64>)> = vec![(0, Some(1e-6)), (1, Some(strict)), (0, Some(tiny)), (0, Some(1e-17)), (0, None), (1, Some(1e-6))];
+    let call = {
+        let (m, n, pm, pn) = (m.clone(), n.clone(), pm.clone(), pn.clone());
+        move |c: (usize, Option<f64>)| -> Vec<u64> {
+            if c.0 == 0 { sample_bits_tol(&*m, &pm, ne_m, false, c.1) } else { sample_bits_tol(&*n, &pn, ne_n, false, c.1) }
+        }
+    };
+    let reference: Vec<Vec<u64>> = combos.iter().map(|c| call(*c)).collect();
+    if std::env::args().nth(2).as_deref() == Some("verbose") {
+        eprintln!("tolerance case {}: strict={:e} reference verdicts {:?}", case, strict, reference.iter().map(|r| if is_err(r) { "Err" } else { "Ok" }).collect::<Vec<_>>());
+    }
+    let nthreads = 3 + (case % 2) as usize;
+    let mut hs = Vec::new();
+    for t in 0..nthreads {
+        let call = call.clone();
+        let combos = combos.clone();
+        hs.push(std::thread::spawn(move || {
+            let mut out = Vec::new();
+            for k in 0..8usize {
+                // callers 0 and 1 alternate between "M under a loose tolerance" and "N under
+                // the strict one", the others keep asking for M under tolerances it does not meet
+                let ci = match t {
+                    0 => k % 2,
+                    1 => (k + 1) % 2,
+                    2 => 2,
+                    _ => 3 + (k % 3),
+                };
+                out.push((ci, call(combos[ci])));
+            }
+            out
+        }));
+    }
+    let mut bad = 0;
+    for (t, h) in hs.into_iter().enumerate() {
+        for (ci, bits) in h.join().expect("caller thread panicked") {
+            if bits != reference[ci] {
+                eprintln!("MIRI-LEG MISMATCH case={} thread={} sampler={} tolerance={:?}: concurrent result differs from the sequential one (reference is {})",
+                    case, t, combos[ci].0, combos[ci].1, if is_err(&reference[ci]) { "Err" } else { "Ok" });
+                bad += 1;
+            }
+        }
+    }
+    for (ci, c) in combos.iter().enumerate() {
+        if call(*c) != reference[ci] {
+            eprintln!("MIRI-LEG MISMATCH case={} after the threads: sampler {} tolerance {:?}", case, c.0, c.1);
+            bad += 1;
+        }
+    }
+    if bad > 0 {
+        std::process::exit(1);
+    }
+}
+
+/// Cases >= 200 (C16): concurrent callers of `decompose_for_tropical` itself, on
+/// the same matrix under different tolerances and on another matrix.  M is a
+/// Hilbert-like matrix (distance of inverse x matrix from the identity well above
+/// rounding level of a well-conditioned one), N a power-of-two diagonal matrix
+/// whose decomposition is exact (distance 0: passes under tolerance 0).
+fn decompose_case(case: u64) {
+    use momtrop::matrix::SquareMatrix;
+    let dim_m = 3 + (case % 2) as usize;
+    let mut m = SquareMatrix::new_zeros_from_num(&0.0f64, dim_m);
+    for i in 0..dim_m {
+        for j in 0..dim_m {
+            m[(i, j)] = 1.0 / ((i + j + 1) as f64) * if case % 4 >= 2 { 0.75 } else { 1.0 };
+        }
+    }
+    let dim_n = 2;
+    let mut n = SquareMatrix::new_zeros_from_num(&0.0f64, dim_n);
+    n[(0, 0)] = 4.0;
+    n[(1, 1)] = 16.0;
+    let call = move |c: (usize, Option<f64>)| -> Vec<u64> {
+        let st = TropicalSamplingSettings { matrix_stability_test: c.1, print_debug_info: false, return_metadata: false, ..Default::default() };
+        let mat = if c.0 == 0 { &m } else { &n };
+        match mat.decompose_for_tropical(&st) {
+            Ok(d) => {
+                let mut v = vec![1u64, d.determinant.to_bits()];
+                v.extend(d.inverse.clone().get_raw_data().iter().map(|x| x.to_bits()));
+                v
+            }
+            Err(e) => vec![0u64, format!("{:?}", e).len() as u64],
+        }
+    };
+    let tiny = 5e-324;
+    let combos: Vec<(usize, Option<f64>)> = vec![(0, Some(1e-6)), (1, Some(0.0)), (0, Some(tiny)), (0, Some(1e-17)), (0, None), (1, Some(1e-6)), (0, Some(0.0))];
+    let reference: Vec<Vec<u64>> = combos.iter().map(|c| call(*c)).collect();
+    if std::env::args().nth(2).as_deref() == Some("verbose") {
+        eprintln!("decompose case {}: reference verdicts {:?}", case, reference.iter().map(|r| r[0]).collect::<Vec<_>>());
+    }
+    let nthreads = 3 + ((case / 4) % 2) as usize;
+    let mut hs = Vec::new();
+    for t in 0..nthreads {
+        let call = call.clone();
+        let combos = combos.clone();
+        hs.push(std::thread::spawn(move || {
+            let mut out = Vec::new();
+            for k in 0..12usize {
+                let ci = match t {
+                    0 => k % 2,
+                    1 => (k + 1) % 2,
+                    2 => [2, 3, 6][k % 3],
+                    _ => 2 + (k % 5),
+                };
+                out.push((ci, call(combos[ci])));
+            }
+            out
+        }));
+    }
+    let mut bad = 0;
+    for (t, h) in hs.into_iter().enumerate() {
+        for (ci, bits) in h.join().expect("caller thread panicked") {
+            if bits != reference[ci] {
+                eprintln!("MIRI-LEG MISMATCH case={} thread={} matrix={} tolerance={:?}: concurrent verdict/result differs from the sequential one (sequential is {})",
+                    case, t, if combos[ci].0 == 0 { "M" } else { "N" }, combos[ci].1, if reference[ci][0] == 1 { "Ok" } else { "Err" });
+                bad += 1;
+            }
+        }
+    }
+    for (ci, c) in combos.iter().enumerate() {
+        if call(*c) != reference[ci] {
+            eprintln!("MIRI-LEG MISMATCH case={} after the threads: matrix {} tolerance {:?}", case, c.0, c.1);
+            bad += 1;
+        }
+    }
+    if bad > 0 {
+        std::process::exit(1);
+    }
+}
+
 fn main() {
     let case: u64 = std::env::args().nth(1).and_then(|s| s.parse().ok()).unwrap_or(0);
+    if case >= 200 {
+        return decompose_case(case);
+    }
+    if case >= 100 {
+        return tolerance_case(case);
+    }
     let mut rs = 0x9e3779b97f4a7c15u64 ^ case.wrapping_mul(0xabcdef12345);
     // case % 3: 0 = callers share one 1-loop sampler, 1 = callers share one 2-loop
     // sampler, 2 = callers use two DIFFERENT samplers (different degree of
